@@ -496,17 +496,7 @@ class Comparison(Display):
                             2].append(  # type: ignore[union-attr]
                                 detailed_information[0])  # type: ignore[arg-type]
 
-            for service2_idx, service2 in enumerate(dl2.services):
-
-                # check for deleted diagnostic services
-                if service2.short_name not in dl1_service_names and dl2_request_prefixes[
-                        service2_idx] not in dl1_request_prefixes:
-
-                    deleted_list = service_dict["deleted_services"]
-                    assert isinstance(deleted_list, list)
-                    if service2 not in deleted_list:
-                        service_dict["deleted_services"].append(  # type: ignore[union-attr]
-                            service2)  # type: ignore[arg-type]
+            for service2 in dl2.services:
 
                 if service1.short_name == service2.short_name:
                     # compare request, pos. response and neg. response parameters of both diagnostic services
@@ -525,6 +515,14 @@ class Comparison(Display):
                         # add detailed information about changed service parameters (type: list) [infotext1, table1, infotext2, table2, ...]
                         service_dict["changed_parameters_of_service"][  # type: ignore[union-attr]
                             2].append(detailed_information[0])  # type: ignore[arg-type]
+
+        # check for deleted diagnostic services
+        for service2_idx, service2 in enumerate(dl2.services):
+            if service2.short_name not in dl1_service_names and dl2_request_prefixes[
+                    service2_idx] not in dl1_request_prefixes:
+                service_dict["deleted_services"].append(  # type: ignore[union-attr]
+                    service2)  # type: ignore[arg-type]
+
         return service_dict
 
     def compare_databases(self, database_new: Database,
